@@ -29,6 +29,8 @@ fn conversion_data(rng: &mut Rng) -> Vec<u8> {
 }
 
 pub fn run(cfg: &Cfg, rep: &mut Report) {
+    // the growable buffer - the reference the fixed ones are compared with - takes responses of any size
+    crate::props::c10::large_responses(cfg, rep, "C11");
     // (0) typed parameter conversions: no heap allocation inside Node::run whatever the handler converts to
     let n = cfg.n(16, 60_000, 40_000_000);
     run_cases(cfg, "conversions", n, rep, |rng, ctx| {
